@@ -39,7 +39,7 @@ def run(prop, tier, seed, out):
             raise Broken("deviation shared_timer does not violate NeverBlockedPastBound (vacuous)")
         outp = scr.path("srep.json")
         t0 = time.time()
-        p = run_vh(vh, ["sinks-replay", "-vectors", vec.out_path, "-seed", str(seed), "-n", "2" if quick else "20", "-out", outp], timeout=2400)
+        p = run_vh(vh, ["sinks-replay", "-vectors", vec.out_path, "-seed", str(seed), "-n", "2" if quick else "60", "-out", outp], timeout=3000)
         if p.returncode != 0:
             raise Broken("sinks-replay failed: " + p.stderr[-1500:])
         r = json.load(open(outp))
